@@ -5,13 +5,44 @@ from typing import Annotated, Any
 
 from vmc.checks.common import Program, replay_program, run_programs
 from vmc.engine import BasicRuntime, EngineExec, MonRuntime, RunConfig, gate, make_step, make_workflow, task_outcome
-from vmc.events import A, B, Done
+from vmc.events import A, B, C, Done
 from vmc.explore import Execution
 from vmc.progs import ENGINE_ASSUMPTIONS
 from workflows.events import StartEvent, StopEvent
 from workflows.resource import Resource
 
 PID = "C22"
+
+# --- resolution-scope log (import-time wrap, no repo change): which step resolutions overlapped in time
+import asyncio  # noqa: E402
+from contextlib import contextmanager  # noqa: E402
+
+from workflows.resource import ResourceManager  # noqa: E402
+
+_SCOPES: dict[str, Any] = {"open": [], "log": [], "seq": 0, "last_by_task": {}}
+_orig_scope = ResourceManager.resolution_scope
+
+
+@contextmanager
+def _scope(self: Any) -> Any:
+    _SCOPES["seq"] += 1
+    rec = {"id": _SCOPES["seq"], "overlapped": bool(_SCOPES["open"])}
+    for o in _SCOPES["open"]:
+        o["overlapped"] = True
+    _SCOPES["open"].append(rec)
+    try:
+        with _orig_scope(self):
+            yield
+    finally:
+        _SCOPES["open"].remove(rec)
+        _SCOPES["log"].append(rec)
+        try:
+            _SCOPES["last_by_task"][id(asyncio.current_task())] = rec
+        except RuntimeError:
+            pass
+
+
+ResourceManager.resolution_scope = _scope  # type: ignore[method-assign]
 
 
 class Obj:
@@ -66,11 +97,14 @@ def execute(ex: Execution, graph: dict[str, Any], inject: dict[str, list[str]], 
     """inject: step name -> resource names; mode 'two_steps' (s1, s2 run concurrently) or 'two_workers'
     (one step, num_workers=2, two events)."""
     Obj.n = 0
+    _SCOPES.update({"open": [], "log": [], "seq": 0, "last_by_task": {}})
     with EngineExec(ex, RunConfig()) as e:
         h = e.h
         calls: dict[str, int] = {}
         desc = make_graph(graph, calls)
         got: list[tuple[str, int, dict[str, Any]]] = []
+        overlapped: dict[tuple[str, int], Any] = {}
+        n_done = 3 if mode == "three" else 2
 
         async def start(self, ctx, ev, inv):  # noqa: ANN001
             if mode == "two_steps":
@@ -86,19 +120,24 @@ def execute(ex: Execution, graph: dict[str, Any], inject: dict[str, list[str]], 
         def user(name: str) -> Any:
             async def body(self, ctx, ev, inv, **res):  # noqa: ANN001
                 got.append((name, ev.uid, dict(res)))
+                overlapped[(name, ev.uid)] = _SCOPES["last_by_task"].get(id(asyncio.current_task()), {}).get("overlapped")
                 await gate(f"{name}:{ev.uid}")
                 return Done(uid=ev.uid)
 
             return body
 
         async def fin(self, ctx, ev, inv):  # noqa: ANN001
-            r = ctx.collect_events(ev, [Done, Done])
+            r = ctx.collect_events(ev, [Done] * n_done)
             if r is None:
                 return None
             return StopEvent(result="ok")
 
-        steps = [make_step("start", [StartEvent], [A, B, None], start)]
-        if mode in ("two_steps", "staggered_steps"):
+        steps = [make_step("start", [StartEvent], [A, B, C, None] if mode == "three" else [A, B, None], start)]
+        if mode == "three":
+            for sn, et in (("s1", A), ("s2", B), ("s3", C)):
+                steps.append(make_step(sn, [et], [Done], user(sn),
+                                       extra_params={r: Annotated[Obj, desc[r]] for r in inject[sn]}))
+        elif mode in ("two_steps", "staggered_steps"):
             steps.append(make_step("s1", [A], [Done], user("s1"),
                                    extra_params={r: Annotated[Obj, desc[r]] for r in inject["s1"]}))
             steps.append(make_step("s2", [B], [Done], user("s2"),
@@ -116,6 +155,11 @@ def execute(ex: Execution, graph: dict[str, Any], inject: dict[str, list[str]], 
         wf = cls(timeout=None, runtime=MonRuntime(BasicRuntime()))
         hd = wf.run(run_id="r1")
         e.consume_stream(hd)
+        if mode == "three":
+            from vmc.engine import Action
+
+            e.add_script([Action("send B", lambda: hd.ctx.send_event(B(uid=2))),
+                          Action("send C", lambda: hd.ctx.send_event(C(uid=3)))])
         if mode.startswith("staggered"):
             from vmc.engine import Action
 
@@ -126,13 +170,14 @@ def execute(ex: Execution, graph: dict[str, Any], inject: dict[str, list[str]], 
         out = task_outcome(hd._result_task)
         v: list[Any] = []
         w = {"mode": mode.replace("staggered_", "two_")}
+        any_overlap = any(r["overlapped"] for r in _SCOPES["log"] + _SCOPES["open"])
         is_cycle_err = out[0] == "exception" and "Circular resource dependency" in str(out[1])
         if cyclic:
             if not is_cycle_err:
                 v.append(("genuine_cycle_not_reported", w, f"cyclic graph {graph} ended with {out} (stuck={e.stuck})"))
         else:
             if is_cycle_err:
-                v.append(("false_cycle_error", w, f"acyclic graph {graph}: {out[1]}"))
+                v.append(("false_cycle_error", {**w, "resolutions_overlapped": any_overlap}, f"acyclic graph {graph}: {out[1]}"))
             elif out[0] != "result":
                 v.append(("run_failed", w, f"acyclic graph {graph} ended with {out} stuck={e.stuck}"))
             else:
@@ -170,10 +215,23 @@ def execute(ex: Execution, graph: dict[str, Any], inject: dict[str, list[str]], 
                                           f"non-cached {rname} differs inside one invocation: {acc[rname]}"))
                         firsts = [acc[rname][0] for acc in users]
                         if len({id(o) for o in firsts}) != len(firsts):
-                            v.append(("non_cached_resource_shared_across_invocations", {**w, "async": cfg.get("async", True)},
-                                      f"non-cached {rname}: invocations received {firsts}"))
+                            # did every invocation that received an already-handed-out object resolve while
+                            # another step's resolution was open?  (per-manager bookkeeping, known root cause)
+                            seen_ids: set[int] = set()
+                            all_overlapped = True
+                            for (name, uid, _res), acc in zip(got, per_inv):
+                                if rname not in acc:
+                                    continue
+                                o = acc[rname][0]
+                                if id(o) in seen_ids and not overlapped.get((name, uid)):
+                                    all_overlapped = False
+                                seen_ids.add(id(o))
+                            v.append(("non_cached_resource_shared_across_invocations",
+                                      {**w, "async": cfg.get("async", True), "receiver_resolution_overlapped_another": all_overlapped},
+                                      f"non-cached {rname}: invocations received {firsts} (overlap per invocation: {overlapped})"))
                         under_cached = any(c.get("cache", True) and rname in c.get("deps", []) for c in graph.values())
-                        if not under_cached and calls.get(rname, 0) != len(users):
+                        shared = len({id(o) for o in firsts}) != len(firsts)  # reported above; the count follows from it
+                        if not shared and not under_cached and calls.get(rname, 0) != len(users):
                             v.append(("non_cached_factory_call_count", {**w, "async": cfg.get("async", True)},
                                       f"non-cached {rname}: {calls.get(rname, 0)} factory calls for {len(users)} invocations"))
         obs = {"outcome": out[0], "value": repr(out[1])[:80], "calls": dict(sorted(calls.items())),
@@ -203,8 +261,25 @@ GRAPHS: dict[str, tuple[dict[str, Any], dict[str, list[str]], bool]] = {
 }
 
 
+THREE: dict[str, tuple[dict[str, Any], dict[str, list[str]]]] = {
+    # two resolutions that can overlap (distinct async factories) + a later user of the same non-cached resource
+    "three_fifo": ({"x": {"async": True, "cache": False}, "y": {"async": True, "cache": False},
+                    "n": {"async": False, "cache": False}},
+                   {"s1": ["x"], "s2": ["y", "n"], "s3": ["n"]}),
+    "three_fifo_async_n": ({"x": {"async": True, "cache": True}, "y": {"async": True, "cache": True},
+                            "n": {"async": True, "cache": False}},
+                           {"s1": ["x"], "s2": ["y", "n"], "s3": ["n"]}),
+    "three_sync_first": ({"x": {"async": True, "cache": False}, "n": {"async": False, "cache": False}},
+                         {"s1": ["n", "x"], "s2": ["n"], "s3": ["n"]}),
+}
+
+
 def programs(tier: str) -> list[Program]:
     ps = []
+    for gname, (graph, inject) in THREE.items():
+        ps.append(Program(f"{gname}/three", {"graph": gname, "mode": "three"},
+                          (lambda ex, graph=graph, inject=inject: execute(ex, graph, inject, "three", False)),
+                          max_dev=(None if tier != "quick" else 4)))
     for gname, (graph, inject, cyclic) in GRAPHS.items():
         for mode in ("two_steps", "two_workers", "staggered_steps", "staggered_workers"):
             ps.append(Program(f"{gname}/{mode}", {"graph": gname, "mode": mode},
